@@ -1,7 +1,7 @@
 """Per-call time limit for calls into ppci (engines C20/C33).
 
 A changed /repo may loop forever (e.g. an encoder whose termination test is broken).  `limited(fn)`
-runs fn() under an interval timer and raises CallTimeout, which the engine records as the observed
+runs fn() under a CPU-time interval timer and raises CallTimeout, which the engine records as the observed
 outcome ({"ok": false, "exc": "CallTimeout"}) so that TLC judges it, instead of hanging the check.
 After MAX_TIMEOUTS time-outs charged to the same `what`, further calls are not made at all (they are
 recorded as CallSkippedAfterTimeouts), so a looping function costs seconds, not hours."""
@@ -24,10 +24,14 @@ def _raise(signum, frame):
 
 
 def limited(fn, seconds=2.0, what=None):
+    """The limit is CPU time of this process (ITIMER_PROF), so that a loaded machine cannot turn a slow but
+    terminating call into a time-out; a wall-clock backstop of 30 x seconds covers calls that block."""
     if what is not None and _count.get(what, 0) >= MAX_TIMEOUTS:
         raise CallSkippedAfterTimeouts()
-    old = signal.signal(signal.SIGALRM, _raise)
-    signal.setitimer(signal.ITIMER_REAL, seconds)
+    old_p = signal.signal(signal.SIGPROF, _raise)
+    old_r = signal.signal(signal.SIGALRM, _raise)
+    signal.setitimer(signal.ITIMER_PROF, seconds)
+    signal.setitimer(signal.ITIMER_REAL, seconds * 30)
     try:
         return fn()
     except CallTimeout:
@@ -35,5 +39,7 @@ def limited(fn, seconds=2.0, what=None):
             _count[what] = _count.get(what, 0) + 1
         raise
     finally:
+        signal.setitimer(signal.ITIMER_PROF, 0)
         signal.setitimer(signal.ITIMER_REAL, 0)
-        signal.signal(signal.SIGALRM, old)
+        signal.signal(signal.SIGPROF, old_p)
+        signal.signal(signal.SIGALRM, old_r)
